@@ -268,6 +268,41 @@ example :
       (sendReply c r q (.buffer [97, 98, 99, 100, 101]) none 4096 (startPosAfterQueue q r 0)).complete = true := by
   refine ⟨⟨200, false, false, false⟩, by decide, ⟨by decide, by decide⟩, by decide⟩
 
+/-- An upgrade response never announces `close` and always leaves the connection in MUST_UPGRADE — also on a
+    connection that was already marked MUST_CLOSE (request with ambiguous framing): `keepalive_possible` decides the
+    upgrade first (fix F37; before it, `close, ` was put in front of the application's `Connection: Upgrade`). -/
+theorem upgrade_reply_no_close (r0 : Resp) (cs : List Call)
+    (h0 : (∃ size, r0 = Resp.create size) ∨ (∃ f, f.insanity = false ∧ r0 = Resp.createEmpty f) ∨ r0 = Resp.createUpgrade)
+    (hl : ∀ c ∈ cs, c.Legal)
+    (c : Conn) (st : CState) (allow : Bool) (code0 : Nat) (q : Queued) (src : BodySrc) (date : Option Bytes) (wb : Nat)
+    (hq : queueResponse c st false false allow code0 (runCalls r0 cs) = some q)
+    (hdate : ∀ d, date = some d → NoCRLF d) (hsz : (runCalls r0 cs).totalSize < 2 ^ 64)
+    (hsrc : SrcLegal (runCalls r0 cs) wb src) (hwb : 128 ≤ wb)
+    (hcomp : (sendReply c (runCalls r0 cs) q src date wb (startPosAfterQueue q (runCalls r0 cs) 0)).complete = true)
+    (hup : (runCalls r0 cs).upgrade = true) :
+    (sendReply c (runCalls r0 cs) q src date wb (startPosAfterQueue q (runCalls r0 cs) 0)).ka = .mustUpgrade ∧
+    ∃ p, parseReply (reqOf c) (sendReply c (runCalls r0 cs) q src date wb (startPosAfterQueue q (runCalls r0 cs) 0)).wire = some p ∧
+      announcesClose p.fields = false := by
+  obtain ⟨p, hp, hiff, _⟩ := close_announced_iff r0 cs h0 hl c st allow code0 q src date wb hq hdate hsz hsrc hwb hcomp
+  have hcode : q.code = 101 := (queue_facts c st allow code0 _ q hq).2.2.2.1 hup
+  have hka : (setupReplyProperties c (runCalls r0 cs) q.code).1 = .mustUpgrade := by
+    have hk : keepalivePossible c (runCalls r0 cs) = .mustUpgrade := by unfold keepalivePossible; simp [hup]
+    unfold setupReplyProperties
+    have hb : isReplyBodyNeeded c.mthd q.code = .none := by rw [hcode]; unfold isReplyBodyNeeded; simp
+    simp [hk, hb]
+  rw [sendReply_ka] at hiff ⊢
+  refine ⟨hka, p, hp, ?_⟩
+  cases hx : announcesClose p.fields with
+  | false => rfl
+  | true => have := hiff.1 hx; rw [hka] at this; cases this
+/-- Non-vacuity: the 101 reply of an upgrade response on a connection that is already MUST_CLOSE. -/
+example :
+    let c : Conn := { keepalive := .mustClose }
+    ∃ q, queueResponse c .fullReqReceived false false true 101 Resp.createUpgrade = some q ∧
+      (sendReply c Resp.createUpgrade q (.buffer []) none 4096 (startPosAfterQueue q Resp.createUpgrade 0)).complete = true ∧
+      (sendReply c Resp.createUpgrade q (.buffer []) none 4096 (startPosAfterQueue q Resp.createUpgrade 0)).ka = .mustUpgrade := by
+  refine ⟨⟨101, false, true, false⟩, by decide, by decide, by decide⟩
+
 /-- Error replies the daemon generates itself (`transmit_error_response_len`: 400 / 413 / 431 / 501 / 505 … and the 301
     redirect with its unchecked `Location` entry) go through the same reply builder.  Whenever such a reply is
     produced at all (otherwise the connection is closed without a byte): it is sent completely, is WellFramed, is
@@ -300,6 +335,7 @@ theorem error_reply_framed_and_closes (c : Conn) (swe late shut : Bool) (code0 :
     omega
   have hsrc : SrcLegal (errorResponse msg.length hdr) wb (.buffer msg) := ⟨hts.symm, by rw [hts]; exact hlen⟩
   have hk := setup_mustClose { c with discardRequest := true, keepalive := .mustClose } (errorResponse msg.length hdr) q.code rfl
+    (errorResponse_props msg.length hdr).2
   have hq2 : queueResponse { c with discardRequest := true, keepalive := .mustClose } .fullReqReceived false false false
       code0 (errorResponse msg.length hdr) = some q := hq
   have hp := Mhd.Reply.reply_parses { c with discardRequest := true, keepalive := .mustClose } _ .fullReqReceived false
